@@ -643,6 +643,53 @@ let run_case op t =
               @ [ "rw" ] @ List.map (function Some r -> string_of_int (int_of_nat r) | None -> "-1") s.arws) in
       let s0 = ainit vals (nat_of_int 2) in
       (pr (arun_m amp s0 ops), pr (arun_s s0 ops))
+  | "init" | "initwf" ->
+      (* which constructor builds a user type the library constructs from forwarded arguments: model = ModelInit.init_case_m
+         (the forms the headers write), spec = SpecInit.init_case_s (the forms the standard prescribes); printing only:
+         std::vector hides which constructor built it; sites that show two objects print two *)
+      let site = next_int t in
+      let scen = next_int t in
+      let a = next_z t in
+      let b = next_z t in
+      if site < 0 || scen < 0 then ("skip", "skip") else begin
+        let why = function NoViable -> "noviable" | Ambiguous -> "ambiguous" | Narrowing -> "narrowing" | ExplicitChosen -> "explicit" in
+        let obj x =
+          if scen = 1 then [ "ok"; "-1"; str_of_z x.osize; (if str_of_z x.osize = "0" then "0" else str_of_z x.ofront); str_of_z x.odepth ]
+          else [ "ok"; str_of_z x.ohow; str_of_z x.osize; str_of_z x.ofront; str_of_z x.odepth ] in
+        let render case =
+          let at k = case (nat_of_int k) (nat_of_int scen) a b in
+          match at site with
+          | ISkip -> "skip"
+          | IIll r -> if op = "initwf" then "ill" else "ill " ^ why r
+          | IOk x ->
+              if op = "initwf" then "wf" else
+              let one_arg = scen = 3 || scen = 4 in
+              let self = scen = 5 in
+              let twice = (one_arg && List.mem site [ 5; 7; 9; 10 ]) || (self && List.mem site [ 5; 6; 7; 8; 11; 12; 13; 14; 22 ]) in
+              let depth = int_of_string (str_of_z x.odepth) in
+              let extra =
+                if twice then obj x
+                else if self && (site = 15 || site = 17) then (match at 14 with IOk y -> obj y | _ -> [ "ill" ])
+                else if self && site = 20 then [ string_of_int depth ]
+                else if self && site = 21 then [ string_of_int (2 * depth) ]
+                else [] in
+              join (obj x @ extra) in
+        (render init_case_m, (if init_in_domain (nat_of_int site) (nat_of_int scen) then render init_case_s else "na"))
+      end
+  | "initlang" ->
+      (* the language rule ModelInit.resolve, form by form; the compiler is the reference (reference and spec legs na) *)
+      let form = next_int t in
+      let scen = next_int t in
+      let a = next_z t in
+      let b = next_z t in
+      if form < 0 || scen < 0 then ("skip", "na") else
+        ((match lang_case_m (nat_of_int form) (nat_of_int scen) a b with
+          | ISkip -> "skip"
+          | IIll _ -> "ill"
+          | IOk x ->
+              if scen = 1 then join [ "ok"; "-1"; str_of_z x.osize; (if str_of_z x.osize = "0" then "0" else str_of_z x.ofront); str_of_z x.odepth ]
+              else join [ "ok"; str_of_z x.ohow; str_of_z x.osize; str_of_z x.ofront; str_of_z x.odepth ]),
+         "na")
   | _ -> raise Not_found
 
 let () = main run_case
